@@ -196,7 +196,11 @@ fn random_job(ctx: &Ctx, job: usize, iters: u64, max_names: usize, depth: u32) -
             }
             rng.shuffle(&mut ord_names);
             let mut id = rng.usize(3);
-            let ordering: Vec<(String, usize)> = ord_names.into_iter().map(|n| { let cur = id; id += 1 + rng.usize(3) * rng.usize(2); (n, cur) }).collect();
+            let mut ordering: Vec<(String, usize)> = ord_names.into_iter().map(|n| { let cur = id; id += 1 + rng.usize(3) * rng.usize(2); (n, cur) }).collect();
+            // (the vector need not be sorted by id either)
+            if rng.chance(1, 2) {
+                rng.shuffle(&mut ordering);
+            }
             check_text_ordered(&mut st, &text, "random+ordering", &ordering);
         } else {
             check_text(&mut st, &text, "random");
